@@ -73,6 +73,16 @@ func wrapGraphNodeError(nodeKey string, err error) error {
 			origError: err,
 		}
 	}
+	if err != error(ie) {
+		// the node wrapped the error of a run it started itself (a nested runnable, a tool that runs a
+		// graph): what the node returned stays the cause, the inner paths are only carried along
+		return &internalError{
+			typ:               ie.typ,
+			streamWrapperPath: append([]defaultImplAction(nil), ie.streamWrapperPath...),
+			nodePath:          NodePath{path: append([]string{nodeKey}, ie.nodePath.path...)},
+			origError:         err,
+		}
+	}
 	ie.nodePath.path = append([]string{nodeKey}, ie.nodePath.path...)
 	return ie
 }
@@ -95,6 +105,14 @@ func wrapStreamWrapperError(streamWrapperType defaultImplAction, err error) erro
 		return &internalError{
 			typ:               internalErrorTypeNodeRun,
 			streamWrapperPath: []defaultImplAction{streamWrapperType},
+			origError:         err,
+		}
+	}
+	if err != error(ie) {
+		return &internalError{
+			typ:               ie.typ,
+			streamWrapperPath: append([]defaultImplAction{streamWrapperType}, ie.streamWrapperPath...),
+			nodePath:          NodePath{path: append([]string(nil), ie.nodePath.path...)},
 			origError:         err,
 		}
 	}
